@@ -22,7 +22,14 @@ EXPLANATION = (
     "store of 0 out (those slots were cleared on write and are never enabled: a no-op); a cache of the masked priorities kept by the "
     "prioritised sampler must be refreshed by every writer of mask_ (derived-state coherence, as for the uniform start cache): it is "
     "stale when no writer touches what the reuse condition reads and the compared buffer quantity is a fixpoint of the write "
-    "(current_len of a full ring)."
+    "(current_len of a full ring). Views of sample_batch: the gather of a field is read as self.buffer[k][IDX], storage[IDX], "
+    "np.take(storage, IDX, axis=0) / storage.take(IDX, axis=0), through a helper method that gathers self.buffer[P][Q] at its own "
+    "parameters, and when it follows the branch on include_intermediate (each view is its arm followed by the common tail); the per-field "
+    "choice may be an if / match chain, a table (display or dict(name=...)) or a selector function defined next to its use; the ring "
+    "reduction may be %, np.mod or np.remainder; the last slot may be computed from the start as (start + horizon - 1) mod current_len - "
+    "the same formula with a quantity of the buffer's own state (the storage horizon) in the place of the sampling horizon is the last "
+    "slot of a window of another length (violation). add_sample: temporaries of the per-field loop are unrolled with it; an entry of "
+    "dict(sample, a=x, ...) is x for the replaced fields and the transition's own entry otherwise."
 )
 TRUSTED = ["numpy nonzero / modular indexing semantics"]
 RULES = {
@@ -31,7 +38,7 @@ RULES = {
     "R3-tail": "in the episode-end branch the last min(episode_timesteps, horizon) slots get 0 iff truncated else 1 (the store of 0 may be left out: a no-op given R1/R2), episode_timesteps is reset to 0, the successor row stores next_observation as observation and reward 0",
     "R4-start-from-mask": "uniform: nz = nonzero(mask_)[0], start = nz[rng.integers(0, len(nz))]; PER: sampler receives (current_len, ..., mask_) and multiplies the priorities by the mask on every path on which a mask may be given; state derived from mask_ (cached starts, cached cumulative masked priorities) is refreshed by every writer of mask_",
     "R5-window-indices": "indices = (start[:, newaxis] + arange(horizon)[newaxis]) % current_len",
-    "R6-no-intermediate-view": "observation, action -> indices[:, 0]; next_observation -> indices[:, -1]; everything else the full window",
+    "R6-no-intermediate-view": "observation, action -> indices[:, 0] (or the start itself); next_observation -> indices[:, -1] (or (start + horizon - 1) % current_len with the SAMPLING horizon); everything else the full window",
 }
 
 RB = "rl_blox.blox.replay_buffer."
@@ -97,6 +104,20 @@ def _specialise(e, k, env, kv="k"):
         if len(e.args) > 1:
             return _specialise(e.args[1], k, env, kv)
         raise AnalysisError(f"{CQ}.sample_batch: `{short(e, 60)}` has no default for field `{k}`")
+    if isinstance(e, ast.Call) and isinstance(e.func, ast.Name) and isinstance(env.get(e.func.id), ast.FunctionDef) and len(e.args) == 1 and not e.keywords and isinstance(e.args[0], ast.Name) and e.args[0].id == kv:
+        # a selector function defined next to its use (`def index_of(k): match k: ...`): its value for the concrete field name; what it
+        # returns is read in the enclosing scope (a closure sees the locals of the method at the time of the call)
+        fd = env[e.func.id]
+        ps = param_names(fd)
+        r = None
+        if len(ps) == 1 and fd.args.vararg is None and fd.args.kwarg is None and not fd.decorator_list:
+            try:
+                r = _selector_value(fd.body, k, env, ps[0])
+            except _Unk:
+                r = None
+        if r is None or any(isinstance(x, ast.Name) and x.id == ps[0] for x in ast.walk(r)):
+            raise AnalysisError(f"{CQ}.sample_batch: selector `{fd.name}` is not a choice by field name only (unrecognised idiom)")
+        return _specialise(r, k, env, kv)
     if isinstance(e, ast.Subscript) and isinstance(e.value, ast.Name) and isinstance(env.get(e.value.id), ast.Dict) and isinstance(e.slice, ast.Name) and e.slice.id == kv:
         d = env[e.value.id]
         for kk, vv in zip(d.keys, d.values):
@@ -104,6 +125,58 @@ def _specialise(e, k, env, kv="k"):
                 return _specialise(vv, k, env, kv)
         raise AnalysisError(f"{CQ}.sample_batch: `{short(e, 60)}` has no entry for field `{k}`")
     return e
+
+
+class _Unk(Exception):
+    pass
+
+
+def _match_case(st, k, env, kv):
+    """The case of `match <field name>` that is taken for the concrete name ``k`` (None: no case matches); _Unk when the statement is
+    not a choice by constant field names."""
+    subj = _const_test(ast.Compare(left=st.subject, ops=[ast.Eq()], comparators=[ast.Constant(value=k)]), k, env, kv)
+    if subj is not True:
+        raise _Unk(f"`match {short(st.subject, 30)}` is not a match on the field name")
+
+    def _pat(p_):
+        if isinstance(p_, ast.MatchValue) and isinstance(p_.value, ast.Constant):
+            return p_.value.value == k
+        if isinstance(p_, ast.MatchOr):
+            rs = [_pat(x_) for x_ in p_.patterns]
+            return None if any(r_ is None for r_ in rs) else any(rs)
+        if isinstance(p_, ast.MatchAs) and p_.pattern is None and p_.name is None:
+            return True
+        return None
+    for case_ in st.cases:
+        r_ = _pat(case_.pattern) if case_.guard is None else None
+        if r_ is None:
+            raise _Unk(f"case pattern `{short(case_.pattern, 40)}` is not a constant field name")
+        if r_:
+            return case_
+    return None
+
+
+def _selector_value(body, k, env, kv):
+    """Expression returned by a block that does nothing but choose by the field name (if / match on ``kv``, return); None when the
+    block falls through; _Unk for anything else."""
+    for st in body:
+        if isinstance(st, ast.Pass) or (isinstance(st, ast.Expr) and isinstance(st.value, ast.Constant)):
+            continue
+        if isinstance(st, ast.Return) and st.value is not None:
+            return st.value
+        if isinstance(st, ast.If):
+            v = _const_test(st.test, k, env, kv)
+            if v is None:
+                raise _Unk()
+            r = _selector_value(st.body if v else st.orelse, k, env, kv)
+        elif isinstance(st, ast.Match):
+            c_ = _match_case(st, k, env, kv)
+            r = _selector_value(c_.body, k, env, kv) if c_ is not None else None
+        else:
+            raise _Unk()
+        if r is not None:
+            return r
+    return None
 
 
 _REDUCER_CALLS = {"mod", "remainder", "fmod", "where", "take", "divmod"}
@@ -130,12 +203,51 @@ def _offset_unreduced(e, at, cfg, depth=0, hz="horizon"):
     return any(_offset_unreduced(c, at, cfg, depth + 1, hz) for c in ast.iter_child_nodes(e))
 
 
-def _gather_index(e, kv="k", vv=None):
-    """IDX of the (single) `self.buffer[kv][IDX]` (or `vv[IDX]`, vv the storage array of the field) gather inside expression e."""
-    gs = [n for n in ast.walk(e) if isinstance(n, ast.Subscript) and isinstance(getattr(n, "ctx", None), ast.Load) and (
-          (isinstance(n.value, ast.Subscript) and dotted(n.value.value) == "self.buffer" and isinstance(n.value.slice, ast.Name) and n.value.slice.id == kv)
-          or (vv is not None and isinstance(n.value, ast.Name) and n.value.id == vv))]
-    return gs[0].slice if len(gs) == 1 else None
+def _is_storage(e, kv, vv):
+    """``e`` denotes the storage array of the current field: `self.buffer[kv]` or the loop's storage variable."""
+    return (isinstance(e, ast.Subscript) and dotted(e.value) == "self.buffer" and isinstance(e.slice, ast.Name) and e.slice.id == kv) or (vv is not None and isinstance(e, ast.Name) and e.id == vv)
+
+
+def _gather_index(e, kv="k", vv=None, repo=None):
+    """IDX of the (single) gather of rows of the current field's storage inside expression e: `self.buffer[kv][IDX]` / `vv[IDX]` (vv
+    the storage array of the field), `np.take(storage, IDX, axis=0)` / `storage.take(IDX, axis=0)` (rows along the first axis: the same
+    rows), or a call of a method of the buffer whose body gathers `self.buffer[P][Q]` at two of its own, never rebound parameters (the
+    gather moved into a helper: IDX is the argument bound to Q when the field name is bound to P)."""
+    gs = []
+    for n in ast.walk(e):
+        if isinstance(n, ast.Subscript) and isinstance(getattr(n, "ctx", None), ast.Load) and _is_storage(n.value, kv, vv):
+            gs.append(n.slice)
+        elif isinstance(n, ast.Call) and isinstance(n.func, ast.Attribute) and n.func.attr == "take" and not any(isinstance(a_, ast.Starred) for a_ in n.args) and all(k_.arg is not None for k_ in n.keywords):
+            if dotted(n.func.value) in ("np", "numpy", "jnp"):
+                names = ["a", "indices", "axis"]
+            else:
+                names = ["indices", "axis"]
+                if not _is_storage(n.func.value, kv, vv):
+                    continue
+            b = dict(zip(names, n.args))
+            b.update({k_.arg: k_.value for k_ in n.keywords})
+            arr = b.get("a", n.func.value)
+            ax = b.get("axis")
+            if set(b) <= set(names) | {"a"} and _is_storage(arr, kv, vv) and "indices" in b and isinstance(ax, ast.Constant) and ax.value == 0 and type(ax.value) is int:
+                gs.append(b["indices"])
+        elif isinstance(n, ast.Call) and repo is not None and isinstance(n.func, ast.Attribute) and dotted(n.func.value) == "self" and not any(isinstance(a_, ast.Starred) for a_ in n.args) and all(k_.arg is not None for k_ in n.keywords):
+            m = repo.method(CQ, n.func.attr)
+            if m is None:
+                continue
+            h = m[1]
+            rebound = {x.id for x in ast.walk(h) if isinstance(x, ast.Name) and not isinstance(x.ctx, ast.Load)}
+            hg = [x for x in ast.walk(h) if isinstance(x, ast.Subscript) and isinstance(x.ctx, ast.Load) and isinstance(x.value, ast.Subscript) and dotted(x.value.value) == "self.buffer"]
+            if len(hg) != 1 or not (isinstance(hg[0].value.slice, ast.Name) and isinstance(hg[0].slice, ast.Name)):
+                continue
+            P_, Q_ = hg[0].value.slice.id, hg[0].slice.id
+            ps = param_names(h)
+            b = bind_call(h, n, skip_self=True)
+            if P_ in rebound or Q_ in rebound or P_ not in ps or Q_ not in ps or P_ not in b or Q_ not in b:
+                continue
+            if isinstance(b[P_], ast.Name) and b[P_].id == kv:
+                gs.append(b[Q_])
+    # several gathers (both arms of a conversion choice, `rows if raw else jnp.asarray(rows)` after inlining) at one and the same index
+    return gs[0] if gs and len({ast.dump(g_) for g_ in gs}) == 1 else None
 
 
 def _field_loop(target, it):
@@ -154,7 +266,7 @@ def _field_loop(target, it):
     return None
 
 
-def _field_indices(cfg, stmts, fn):
+def _field_indices(cfg, stmts, fn, repo=None):
     """field name -> (index expression, CFG node at which to normalise it) for the statements of one view of sample_batch."""
     out = {}
     env = {}   # locals of the branch that hold selection tables / per-key choices
@@ -170,34 +282,17 @@ def _field_indices(cfg, stmts, fn):
                     raise AnalysisError(f"{CQ}.sample_batch: branch `{short(st.test, 50)}` inside the per-field loop does not only depend on the field name (unrecognised idiom)")
                 run_body(st.body if v else st.orelse, k, kenv, kv, vv)
             elif isinstance(st, ast.Match):
-                subj = _const_test(ast.Compare(left=st.subject, ops=[ast.Eq()], comparators=[ast.Constant(value=k)]), k, kenv, kv)
-                if subj is not True:
-                    raise AnalysisError(f"{CQ}.sample_batch: `match {short(st.subject, 30)}` inside the per-field loop is not a match on the field name (unrecognised idiom)")
-
-                def _pat(p_):
-                    if isinstance(p_, ast.MatchValue) and isinstance(p_.value, ast.Constant):
-                        return p_.value.value == k
-                    if isinstance(p_, ast.MatchOr):
-                        rs = [_pat(x_) for x_ in p_.patterns]
-                        return None if any(r_ is None for r_ in rs) else any(rs)
-                    if isinstance(p_, ast.MatchAs) and p_.pattern is None:
-                        return True
-                    return None
-                chosen = None
-                for case_ in st.cases:
-                    r_ = _pat(case_.pattern) if case_.guard is None else None
-                    if r_ is None:
-                        raise AnalysisError(f"{CQ}.sample_batch: case pattern `{short(case_.pattern, 40)}` inside the per-field loop is not a constant field name (unrecognised idiom)")
-                    if r_:
-                        chosen = case_
-                        break
+                try:
+                    chosen = _match_case(st, k, kenv, kv)
+                except _Unk as ex_:
+                    raise AnalysisError(f"{CQ}.sample_batch: {ex_} inside the per-field loop (unrecognised idiom)")
                 if chosen is not None:
                     run_body(chosen.body, k, kenv, kv, vv)
             elif isinstance(st, (ast.For, ast.While, ast.Try, ast.With)):
                 raise AnalysisError(f"{CQ}.sample_batch: `{short(st, 50)}` inside the per-field loop (unrecognised idiom)")
             elif isinstance(st, ast.Assign) and len(st.targets) == 1:
                 t = st.targets[0]
-                ix = _gather_index(st.value, kv, vv)
+                ix = _gather_index(st.value, kv, vv, repo)
                 if ix is not None:
                     out[k] = (_specialise(ix, k, kenv, kv), kenv.get("@at", node_of(st)))
                 elif isinstance(t, ast.Name):
@@ -208,17 +303,23 @@ def _field_indices(cfg, stmts, fn):
         if fl is not None:
             for k in _KEYS:
                 run_body(st.body, k, dict(env), fl[0], fl[1])
+        elif isinstance(st, ast.Assign) and len(st.targets) == 1 and isinstance(st.targets[0], ast.Name) and isinstance(st.value, ast.Call) and isinstance(st.value.func, ast.Name) and st.value.func.id == "dict" \
+                and not st.value.args and all(k_.arg is not None for k_ in st.value.keywords) and not any(isinstance(x, (ast.DictComp,)) for x in ast.walk(st.value)):
+            # dict(observation=a, action=b): the same table as the display {"observation": a, "action": b}
+            env[st.targets[0].id] = ast.copy_location(ast.Dict(keys=[ast.Constant(value=k_.arg) for k_ in st.value.keywords], values=[k_.value for k_ in st.value.keywords]), st.value)
         elif isinstance(st, ast.Assign) and len(st.targets) == 1 and isinstance(st.targets[0], ast.Name) and isinstance(st.value, ast.Dict) and all(isinstance(x, ast.Constant) for x in st.value.keys if x is not None) \
                 and not any(isinstance(x, (ast.DictComp,)) for x in ast.walk(st.value)):
             env[st.targets[0].id] = st.value
         elif isinstance(st, ast.Assign) and len(st.targets) == 1 and isinstance(st.targets[0], ast.Name) and isinstance(st.value, (ast.List, ast.Tuple, ast.Set)) and st.value.elts and all(isinstance(x, ast.Constant) and isinstance(x.value, str) for x in st.value.elts):
             env[st.targets[0].id] = st.value     # a literal collection of field names used in `k in names`
+        elif isinstance(st, ast.FunctionDef):
+            env[st.name] = st                    # a selector defined next to its use
         else:
             for dc in [x for x in ast.walk(st) if isinstance(x, ast.DictComp)]:
                 g = dc.generators[0]
                 fl = _field_loop(g.target, g.iter) if len(dc.generators) == 1 and not g.ifs else None
                 if fl is not None:
-                    ix = _gather_index(dc.value, fl[0], fl[1])
+                    ix = _gather_index(dc.value, fl[0], fl[1], repo)
                     if ix is None:
                         continue
                     for k in _KEYS:
@@ -253,15 +354,18 @@ def _unroll_field_loops(fn):
                 return n
         return ast.fix_missing_locations(T().visit(clone(st)))
 
-    def spec(body, k, kv, vv):
+    def spec(body, k, kv, vv, temps=frozenset()):
         out = []
         for st in body:
             if isinstance(st, ast.If):
                 v = _const_test(st.test, k, {}, kv)
-                r = None if v is None else spec(st.body if v else st.orelse, k, kv, vv)
+                r = None if v is None else spec(st.body if v else st.orelse, k, kv, vv, temps)
                 if r is None:
                     return None
                 out += r
+            elif isinstance(st, ast.Assign) and len(st.targets) == 1 and isinstance(st.targets[0], ast.Name) and st.targets[0].id in temps \
+                    and not any(isinstance(x, ast.Name) and x.id in (kv, vv) and not isinstance(x.ctx, ast.Load) for x in ast.walk(st)):
+                out.append(subst(st, k, kv, vv))     # a temporary of the loop body (the value chosen for this field, stored afterwards)
             elif isinstance(st, ast.Pass) or (isinstance(st, ast.Expr) and isinstance(st.value, ast.Constant)):
                 continue
             elif isinstance(st, ast.Assign) and len(st.targets) == 1 and isinstance(st.targets[0], ast.Subscript) and storage(st.targets[0].value, kv, vv) \
@@ -276,7 +380,12 @@ def _unroll_field_loops(fn):
         for st in stmts:
             fl = _field_loop(st.target, st.iter) if isinstance(st, ast.For) and not st.orelse else None
             if fl is not None:
-                bodies = [spec(st.body, k, fl[0], fl[1]) for k in _KEYS]
+                # temporaries of the body: plain locals assigned inside the loop and read nowhere else in the method (the unrolled bodies
+                # run in the documented field order, which need not be the storage order: their last value must not matter)
+                inside = {id(x) for x in ast.walk(st)}
+                temps = {t_.id for x in ast.walk(st) if isinstance(x, ast.Assign) and len(x.targets) == 1 for t_ in x.targets if isinstance(t_, ast.Name) and t_.id not in (fl[0], fl[1])}
+                temps = frozenset(t_ for t_ in temps if not any(isinstance(x, ast.Name) and x.id == t_ and id(x) not in inside for x in ast.walk(new)))
+                bodies = [spec(st.body, k, fl[0], fl[1], temps) for k in _KEYS]
                 if all(b is not None for b in bodies):
                     for b in bodies:
                         out += [ast.copy_location(x, st) if not hasattr(x, "lineno") else x for x in b]
@@ -326,10 +435,6 @@ def _parse_canon(txt):
         return ast.parse(t, mode="eval").body
     except SyntaxError:
         return None
-
-
-class _Unk(Exception):
-    pass
 
 
 _TRANSPARENT = {"int", "bool", "float", "asarray", "array", "int64", "int32", "bool_", "squeeze", "item"}
@@ -665,6 +770,18 @@ def _add_sample_effects(ck, repo, nf):
         top = base if c == -1 else base + n_ - Poly.const(1)
         return top.canon(), n_.canon()
 
+    def copy_entry(v):
+        """`dict(sample, a=x, b=y)[c]` (a copy of the transition with some entries replaced, read at a constant field): x when c is a,
+        the transition's own entry when c is not among the replaced ones."""
+        e = _parse_canon(v)
+        if not (isinstance(e, ast.Subscript) and isinstance(e.slice, ast.Constant) and isinstance(e.value, ast.Call) and isinstance(e.value.func, ast.Name) and e.value.func.id == "dict"
+                and len(e.value.args) == 1 and isinstance(e.value.args[0], ast.Name) and e.value.args[0].id == KW and all(k_.arg is not None for k_ in e.value.keywords)):
+            return v
+        rep = {k_.arg: k_.value for k_ in e.value.keywords}
+        r = rep.get(e.slice.value, ast.Subscript(value=ast.Name(id=KW, ctx=ast.Load()), slice=e.slice, ctx=ast.Load()))
+        p = P(ast.fix_missing_locations(r))
+        return v if p is None else p.canon()
+
     def relates(lits, var):
         """A branch condition of the path relates ``var`` to the capacity: the final value is only meant for that case."""
         return any(var in _toks(l) and "buffer_size" in _toks(l) for l in lits)
@@ -811,6 +928,7 @@ def _add_sample_effects(ck, repo, nf):
                 r_, ix, v = so[-1]   # the last store to the successor row's observation decides its content
                 if KW is not None:
                     v = re.sub(rf"\bdict\({re.escape(KW)}\)\[", f"{KW}[", v)     # an entry of a shallow copy that was not reassigned is the original's entry
+                    v = copy_entry(v)
                 bad_slot = [x for x in so if x[0] != R_NEXT]
                 if bad_slot and not all(evidence(x[1]) for x in bad_slot):
                     raise AnalysisError(f"{site}: store `buffer['observation'][{bad_slot[0][1][:60]}]` (unrecognised form)")
@@ -1270,9 +1388,13 @@ def _views(ck, repo, nf):
     arm_t, arm_f = list(ifnode.ast.body), list(ifnode.ast.orelse)
     if not arm_f and arm_t and isinstance(arm_t[-1], (ast.Return, ast.Raise)) and ifnode.ast in f4.body:
         arm_f = f4.body[f4.body.index(ifnode.ast) + 1:]      # `if c: ...; return x` followed by the other view
+    elif arm_t and arm_f and ifnode.ast in f4.body and not any(isinstance(x, (ast.Return, ast.Raise)) for a_ in (arm_t, arm_f) for st_ in a_ for x in ast.walk(st_)):
+        # both arms only prepare the selection and the gather follows the branch: each view is its arm followed by the common tail
+        tail_ = f4.body[f4.body.index(ifnode.ast) + 1:]
+        arm_t, arm_f = arm_t + tail_, arm_f + tail_
     with_branch, without_branch = (arm_t, arm_f) if pol else (arm_f, arm_t)
     # the window index matrix: what every field is gathered at in the with-intermediate view (located by its use, not by its name)
-    per_key_w = _field_indices(c4, with_branch, f4)
+    per_key_w = _field_indices(c4, with_branch, f4, repo)
     if not per_key_w:
         raise AnalysisError(f"{site}: gather of the with-intermediate view not found (unrecognised idiom)")
     wforms = {nf.poly(ix, s4, at).canon() for ix, at in per_key_w.values()}
@@ -1305,6 +1427,15 @@ def _views(ck, repo, nf):
     STEPS = [f"np.arange({HZ})[{nx}]" for nx in ("np.newaxis", "None")] + [f"np.arange({HZ})[{nx}, :]" for nx in ("np.newaxis", "None")] + [f"np.arange({HZ})", f"np.arange({HZ}).reshape(1, -1)"]
     wants = {spec_(f"({c_} + {ar}) % {L_}").canon() for c_ in COLS for ar in STEPS for L_ in LENS}
     wants |= {spec_(f"np.add.outer({S_}, np.arange({HZ})) % {L_}").canon() for S_ in STARTS for L_ in LENS}     # the outer sum is the same matrix
+    # the ring reduction as a function call: np.mod / np.remainder are the operator %
+    SUMS = [f"{c_} + {ar}" for c_ in COLS for ar in STEPS] + [f"np.add.outer({S_}, np.arange({HZ}))" for S_ in STARTS] + [f"np.add({c_}, {ar})" for c_ in COLS for ar in STEPS]
+    for X_ in SUMS:
+        for L_ in LENS:
+            for F_ in ("np.mod", "np.remainder"):
+                try:
+                    wants.add(spec_(f"{F_}({X_}, {L_})").canon())
+                except Exception:
+                    pass
     want = spec_(f"({START}[:, np.newaxis] + np.arange({HZ})[np.newaxis]) % self.current_len").canon()
     ok = iv in wants
     why5 = ""
@@ -1328,7 +1459,7 @@ def _views(ck, repo, nf):
             raise AnalysisError(f"{site}: window indices `{iv[:120]}` (unrecognised form)")
     ck.ob("R5-window-indices", site, "consecutive-mod-len", ok, f"indices = {iv}", "" if ok else f"must be {want}: {why5}", loc(mi, f4))
     # no-intermediate view: which index gathers each field (key-specialised partial evaluation of the branch)
-    per_key = _field_indices(c4, without_branch, f4)
+    per_key = _field_indices(c4, without_branch, f4, repo)
     ck.need(per_key, f"{site}: per-field index selection of the no-intermediate view not found (unrecognised idiom)")
 
     def col(which):
@@ -1343,6 +1474,23 @@ def _views(ck, repo, nf):
         return out
     w_first = col("0") | start_cs       # start itself lies in [0, current_len): same slot as column 0
     w_last = col("-1") | col(f"{HZ} - 1")
+
+    def last_of(n_txt):
+        """Spellings of the last slot of a window of ``n_txt`` steps computed from the start directly: the last column of
+        (start[:, None] + arange(n)) % len is (start + n - 1) % len."""
+        out = set()
+        for S_ in STARTS:
+            for L_ in LENS:
+                for t_ in (f"({S_} + {n_txt} - 1) % {L_}", f"np.mod({S_} + {n_txt} - 1, {L_})", f"np.remainder({S_} + {n_txt} - 1, {L_})"):
+                    try:
+                        out.add(spec_(t_).canon())
+                    except Exception:
+                        pass
+        return out
+    w_last |= last_of(HZ)
+    # the same formula with a quantity of the buffer's own state in the place of the sampling horizon (the storage horizon): the last
+    # slot of a window of another length
+    w_last_other = {c_: a_ for a_ in sorted(_init_fields(repo, CQ)) for c_ in last_of(f"self.{a_}") if c_ not in w_last}
     w_all = {iv}
     w_other = set().union(*[col(str(c_)) for c_ in (1, 2, 3, -2, -3)])
     ing6 = _toks(iv) | _init_fields(repo, CQ) | {"arange", "minimum", "maximum", "clip"}
@@ -1360,6 +1508,9 @@ def _views(ck, repo, nf):
                 part = "the first column of the window" if got in w_first else "the last column of the window" if got in w_last else "the full window" if got in w_all else "an inner column of the window"
                 need_ = {"first": "the first column", "last": "the last column (the successor observation belongs to the end of the n-step window)", "window": "the full window"}[role]
                 why = f"`{key}` is gathered at {part}, it must be gathered at {need_}"
+            elif role == "last" and got in w_last_other:
+                why = (f"the successor index of `{key}` ({got[:90]}) is the last step of a window of self.{w_last_other[got]} steps from the start, not of the sampled window of `{HZ}` steps: "
+                       f"whenever the sampling horizon differs from self.{w_last_other[got]} the successor observation comes from a step outside the returned rewards and flags")
             elif role == "last" and any(c_ in got for c_ in start_cs) and _offset_unreduced(ix, at, c4, 0, HZ):
                 why = (f"the successor index of `{key}` ({got[:90]}) is an offset from the start that is never reduced modulo the ring length: "
                        "windows that wrap around the end of the storage read the wrong slot (or clamp to the last slot)")
@@ -1447,4 +1598,47 @@ BENIGN = [
     {'id': 'c04-b-successor-row-from-edited-copy', 'file': _F, 'find': '            for k in self.buffer:\n                if k == "reward":\n                    self.buffer[k][self.insert_idx] = 0.0\n                else:\n                    self.buffer[k][self.insert_idx] = sample[k]\n            self.buffer["observation"][self.insert_idx] = sample[\n                "next_observation"\n            ]\n', 'replace': '            final = dict(sample)\n            final["reward"] = 0.0\n            final["observation"] = sample["next_observation"]\n            for k in self.buffer:\n                self.buffer[k][self.insert_idx] = final[k]\n'},
     {'id': 'c04-b-sampler-cdf-cache-invalidated-through-helper', 'file': _F, 'edits': [('        self.sampled_indices = np.empty(0, dtype=int)\n\n    def initialize_priority', '        self.sampled_indices = np.empty(0, dtype=int)\n        self._cdf = None\n\n    def initialize_priority'), ('        priority = self.priority[:current_len]\n        if mask is not None:\n            priority = priority * mask[:current_len]\n        probabilities = np.cumsum(priority)\n        random_uniforms', '        if self._cdf is None:\n            weights = self.priority[:current_len]\n            if mask is not None:\n                weights = weights * mask[:current_len]\n            self._cdf = np.cumsum(weights)\n        probabilities = self._cdf\n        random_uniforms'), ('        self.max_priority = max(np.max(priority), self.max_priority)\n', '        self.max_priority = max(np.max(priority), self.max_priority)\n        self._cdf = None\n'), ('        self.priority[insert_idx] = self.max_priority\n', '        self.priority[insert_idx] = self.max_priority\n        self._touch()\n\n    def _touch(self):\n        self._cdf = None\n')]},
     {'id': 'c04-b-sampler-mask-defaults-to-ones', 'file': _F, 'nth': 0, 'find': '        priority = self.priority[:current_len]\n        if mask is not None:\n            priority = priority * mask[:current_len]\n', 'replace': '        if mask is None:\n            mask = np.ones(current_len, dtype=int)\n        priority = self.priority[:current_len] * mask[:current_len]\n'},
+]
+
+# ---- overlays for the forms read since round 2 (selector function, gather in a helper / np.take, gather after the branch, ring reduction
+# as a call, last slot computed from the start, temporaries in the per-field loop, an edited copy of the transition) -----------------------
+_LOOP6 = '            batch = {}\n            for k in self.buffer:\n                if k in ["observation", "action"]:\n                    indices_without_intermediate = indices[:, 0]\n                elif k == "next_observation":\n                    indices_without_intermediate = indices[:, -1]\n                else:\n                    indices_without_intermediate = indices\n                batch[k] = jnp.asarray(\n                    self.buffer[k][indices_without_intermediate]\n                )\n            batch = self.Batch(**batch)\n'
+_VIEWS6 = '        if include_intermediate:\n            # sample subtrajectories (with horizon dimension) for unrolling\n            # dynamics\n            batch = self.Batch(\n                **{k: jnp.asarray(self.buffer[k][indices]) for k in self.buffer}\n            )\n        else:\n            # sample at specific horizon (used for multistep rewards)\n' + _LOOP6 + '\n        return batch\n'
+_START6 = ('        indices = self._sample_idx(batch_size, rng)\n', '        first = self._sample_idx(batch_size, rng)\n')
+_SUM6 = ('            indices[:, np.newaxis] + np.arange(horizon)[np.newaxis]\n', '            first[:, np.newaxis] + np.arange(horizon)[np.newaxis]\n')
+_SUCC6 = '            for k in self.buffer:\n                if k == "reward":\n                    self.buffer[k][self.insert_idx] = 0.0\n                else:\n                    self.buffer[k][self.insert_idx] = sample[k]\n            self.buffer["observation"][self.insert_idx] = sample[\n                "next_observation"\n            ]\n'
+
+
+def _selector6(last):
+    return ('            def pick(name):\n                if name == "next_observation":\n                    return ' + last + '\n                match name:\n                    case "action" | "observation":\n                        return indices[:, 0]\n                    case _:\n                        return indices\n'
+            '            batch = self.Batch(**{k: jnp.asarray(self.buffer[k][pick(k)]) for k in self.buffer})\n')
+
+
+def _shared6(action):
+    return ('        if include_intermediate:\n            chosen = {}\n        else:\n            chosen = {"observation": indices[:, 0], "action": ' + action + ', "next_observation": indices[:, -1]}\n'
+            '        batch = self.Batch(**{k: jnp.asarray(np.take(v, chosen.get(k, indices), axis=0)) for k, v in self.buffer.items()})\n\n        return batch\n')
+
+
+def _temp6(obs):
+    return ('            for k in self.buffer:\n                stored = sample[k]\n                if k == "observation":\n                    stored = sample["' + obs + '"]\n                if k == "reward":\n                    stored = 0.0\n                self.buffer[k][self.insert_idx] = stored\n')
+
+
+MUTANTS += [
+    {"id": "c04-successor-last-of-storage-horizon", "file": _F, "rule": "R6", "edits": [_START6, _SUM6, ('                    indices_without_intermediate = indices[:, -1]\n', '                    indices_without_intermediate = (first + self.horizon - 1) % self.current_len\n')]},
+    {"id": "c04-selector-function-successor-first", "file": _F, "rule": "R6", "find": _LOOP6, "replace": _selector6("indices[:, 0]")},
+    {"id": "c04-gather-after-branch-action-last", "file": _F, "rule": "R6", "find": _VIEWS6, "replace": _shared6("indices[:, -1]")},
+    {"id": "c04-window-np-mod-capacity", "file": _F, "rule": "R5", "find": '        indices = (\n            indices[:, np.newaxis] + np.arange(horizon)[np.newaxis]\n        ) % self.current_len\n', "replace": '        indices = np.mod(indices[:, None] + np.arange(horizon), self.buffer_size)\n'},
+    {"id": "c04-successor-row-loop-temporary-keeps-observation", "file": _F, "rule": "R3", "find": _SUCC6, "replace": _temp6("observation")},
+    {"id": "c04-successor-row-copy-without-observation", "file": _F, "rule": "R3", "find": _SUCC6, "replace": '            row = dict(sample, reward=0.0)\n            for k in self.buffer:\n                self.buffer[k][self.insert_idx] = row[k]\n'},
+]
+BENIGN += [
+    {"id": "c04-b-successor-last-of-sampled-horizon", "file": _F, "edits": [_START6, _SUM6, ('                    indices_without_intermediate = indices[:, -1]\n', '                    indices_without_intermediate = np.mod(first + horizon - 1, self.current_len)\n')]},
+    {"id": "c04-b-selector-function", "file": _F, "find": _LOOP6, "replace": _selector6("indices[:, -1]")},
+    {"id": "c04-b-gather-after-branch-take", "file": _F, "find": _VIEWS6, "replace": _shared6("indices[:, 0]")},
+    {"id": "c04-b-window-np-remainder-add", "file": _F, "find": '        indices = (\n            indices[:, np.newaxis] + np.arange(horizon)[np.newaxis]\n        ) % self.current_len\n', "replace": '        indices = np.remainder(np.add(indices[:, None], np.arange(horizon)), len(self))\n'},
+    {"id": "c04-b-successor-row-loop-temporary", "file": _F, "find": _SUCC6, "replace": _temp6("next_observation")},
+    {"id": "c04-b-successor-row-copy-with-replacements", "file": _F, "find": _SUCC6, "replace": '            row = dict(sample, observation=sample["next_observation"], reward=0.0)\n            for k in self.buffer:\n                self.buffer[k][self.insert_idx] = row[k]\n'},
+    {"id": "c04-b-gather-take-method-both-views", "file": _F, "edits": [('                **{k: jnp.asarray(self.buffer[k][indices]) for k in self.buffer}\n', '                **{k: jnp.asarray(self.buffer[k].take(indices, axis=0)) for k in self.buffer}\n'), ('                batch[k] = jnp.asarray(\n                    self.buffer[k][indices_without_intermediate]\n                )\n', '                batch[k] = jnp.asarray(np.take(self.buffer[k], indices_without_intermediate, 0))\n')]},
+    {"id": "c04-b-gather-helper-method", "file": _F, "edits": [('                **{k: jnp.asarray(self.buffer[k][indices]) for k in self.buffer}\n', '                **{k: self._rows(indices, k) for k in self.buffer}\n'), ('                batch[k] = jnp.asarray(\n                    self.buffer[k][indices_without_intermediate]\n                )\n', '                batch[k] = self._rows(where=indices_without_intermediate, field=k)\n'), ('    def _sample_idx(\n        self, batch_size: int, rng: np.random.Generator\n    ) -> npt.NDArray[int]:\n        nz = np.nonzero', '    def _rows(self, where, field):\n        picked = self.buffer[field][where]\n        return jnp.asarray(picked)\n\n    def _sample_idx(\n        self, batch_size: int, rng: np.random.Generator\n    ) -> npt.NDArray[int]:\n        nz = np.nonzero')]},
+    {"id": "c04-b-end-guard-clause", "file": _F, "find": '        if sample["terminated"] or sample["truncated"]:\n            for k in self.buffer:', "replace": '        if not (sample["terminated"] or sample["truncated"]):\n            return inserted_at\n        if True:\n            for k in self.buffer:'},
 ]
